@@ -225,10 +225,12 @@ pub fn run<K: HKey>(cas: &Cas<K>, stats: Option<&OrphanStats<K>>, dir: &std::pat
         };
         let mut ok = wait_all(&ctl);
         let explicit: Option<Vec<usize>> = policy.strip_prefix("sched=").map(|s| if s.is_empty() { vec![] } else { s.split(',').map(|x| x.parse().unwrap()).collect() });
-        let mut rng = Rng::new(policy.strip_prefix("rand=").or(policy.strip_prefix("stall=")).and_then(|s| s.parse().ok()).unwrap_or(0));
+        let mut rng = Rng::new(policy.strip_prefix("rand=").or(policy.strip_prefix("stall=")).or(policy.strip_prefix("stall0=")).and_then(|s| s.parse().ok()).unwrap_or(0));
         // `stall=<seed>`: one long preemption — a victim thread runs `stall_after` steps, is then
         // held back while any other thread can run, and finishes last
-        let stall: Option<(usize, usize)> = policy.strip_prefix("stall=").map(|_| (rng.below(n as u64) as usize, rng.below(9) as usize));
+        // (`stall0=`: the victim is thread 0 and is stopped early, inside its first or second call)
+        let stall: Option<(usize, usize)> = if policy.starts_with("stall0=") { Some((0, 1 + rng.below(5) as usize)) }
+            else { policy.strip_prefix("stall=").map(|_| (rng.below(n as u64) as usize, rng.below(9) as usize)) };
         let mut victim_steps = 0usize;
         let mut step_no = 0usize;
         let mut cur: Option<usize> = None;
